@@ -8,9 +8,14 @@ the very first call, calls that are never reached, several stops at different ti
 Compared with the model: full event trace, `t_final`, `steps`, final state, `stop_reason`,
 `successful`, finalize calls, `MemoryStorage.times/data`, `DataTracker.times/data`, pending action
 times.  Monitor (every real run): per-tracker strictly increasing times on the step lattice with the
-state after n steps, constant schedules with D >= dt served exactly once within dt/2, frame count,
-recorded frames = calls, stop handling (all due trackers served, run ends at the stop time with the
-state of that time, reason of the last raising tracker reported, every tracker finalised once)."""
+state after n steps (own copy of the solver's scheme; equations as in C07, incl. the state-dependent
+ones), constant schedules with D >= dt served exactly once within dt/2, the frame count clauses of
+the statement literally (floor(T/D)+1 on a whole number of steps; otherwise at most one more, at the
+final time), "exactly at it" for every tracker of an adaptive / exact stepper, recorded frames =
+calls, stop handling (all due trackers served, run ends at the stop time with the state of that time,
+reason of the last raising tracker reported, every tracker finalised once).  Where the unchanged code
+deviates from a literal clause the monitor recognises the corner on the data of the failing run and
+names it in the key (ctrl.KNOWN_CORNERS); nothing is keyed by the leg it was found in."""
 import copy
 import json
 
@@ -24,7 +29,8 @@ REQUIRED_THEOREMS = [
     "frame_count_general", "storage_frame_count", "served_exactly_once_constant_interrupts", "recorded_frames_are_calls",
     "stop_serves_all_due", "final_stop_serves_all_due", "stop_ends_at_stop_time", "stop_reason_reported",
     "all_finalized", "corner_scheduled_time_at_t_end_missed", "extra_frame_not_at_final_time",
-    "adaptive_served_exactly", "adaptive_two_trackers_served_early",
+    "frame_count_whole_range_sliver", "sliver_frame_on_whole_range",
+    "adaptive_served_exactly_partial", "adaptive_served_exactly_run_partial", "adaptive_two_trackers_served_early",
 ]
 RULE = ("pairs of runs (stop-free, then with injected stop requests placed on calls of the stop-free trace) "
         "with 1-4 trackers (callback / StorageTracker+MemoryStorage / DataTracker; constant, fixed, logarithmic, "
@@ -37,6 +43,10 @@ ASSUMPTIONS = [
     "GeometricInterrupts answers (libm log/pow) are replayed as an oracle schedule in Float mode and at float ties",
     "served-exactly-once and the frame count are proved for constant schedules without t_start offset "
     "restrictions other than D >= dt; other schedules are covered by the trace theorems and the correspondence",
+    "`exactly at it for adaptive steppers` is judged for trackers whose schedule is t_start + k*D (the statement's "
+    "schedule); a tracker with an own start offset less than dt/2 after t_start is served at t_start",
+    "truly adaptive steppers (dt and with it both tolerances change during the run, targets overshot by dt_min = 1e-10) "
+    "are monitored, not modelled (theorems adaptive_served_exactly*_partial)",
 ]
 TRUSTED_EXTRA = ["IEEE double arithmetic of Lean's Float equals CPython/numpy/numba float64 for + - * / floor"]
 
@@ -47,9 +57,8 @@ def gen_case(rng, hist, exec_mode, max_steps):
     # under JIT only dyadic numbers have a bit-exact reference (see ctrl.resolve): favour them there
     numbers = rng.choice(["Q", "F"]) if exec_mode != "numba-J" else rng.choice(["Q", "Q", "Q", "F"])
     dt, t0, t1, N, delta = ctrl.gen_base(rng, numbers, hist, max_steps)
-    eq = rng.choice(["one", "time"])
-    solver = "euler" if rng.random() < 0.85 else rng.choice(ctrl.FIXED_SOLVERS[1:])
-    u0 = rng.choice([0.0, 1.0, ctrl.dyadic(rng, 0, 16, 3)]) if numbers == "Q" else rng.choice([0.0, 0.1, 1.0, -0.3])
+    eq, a, u0 = ctrl.gen_equation(rng, numbers, dt, t0, t1, hist, state_dependent=0.4)
+    solver = "euler" if rng.random() < 0.7 else rng.choice(ctrl.FIXED_SOLVERS[1:])
     n = rng.choice([1, 1, 2, 2, 3, 3, 4])
     trs = ctrl.gen_trackers(rng, numbers, dt, t0, t1, hist, n=n)
     if rng.random() < 0.5:
@@ -61,9 +70,8 @@ def gen_case(rng, hist, exec_mode, max_steps):
         hist("tracker", "constant D>=dt (forced)")
     hist("numbers", "dyadic" if numbers == "Q" else "decimal")
     hist("solver", solver)
-    hist("equation", eq)
     hist("exec", exec_mode)
-    return {"numbers": numbers, "dt": dt, "t_start": t0, "t_end": t1, "u0": u0, "eq": eq, "solver": solver,
+    return {"numbers": numbers, "dt": dt, "t_start": t0, "t_end": t1, "u0": u0, "eq": eq, "a": a, "solver": solver,
             "backend": "numpy" if exec_mode == "numpy" else "numba", "jit": exec_mode == "numba-J", "N": N,
             "delta": delta, "cells": 1, "trackers": trs}
 
@@ -127,28 +135,42 @@ def place_stops(rng, hist, case, real):
     return case2
 
 
-# the corner found while proving `frame_count_general` (Lean: corner_scheduled_time_at_t_end_missed):
-# t_end = N*dt + 1e-6*dt and a scheduled time exactly at t_end.  Deterministic probe, strict monitor.
+def report(ctx, leg, case, failures):
+    """monitor failures -> ctx; the key names a known corner only if the monitor recognised it on this run"""
+    for what, obs, exp, *rest in failures:
+        ctx.monitor_fail(leg, case, obs, exp, what, key=ctrl.failure_key(what, rest[0] if rest else None))
+
+
+# deterministic probes of the corners in which the unchanged code deviates from the literal statement (found
+# while proving the frame-count theorems; Lean witnesses corner_scheduled_time_at_t_end_missed,
+# extra_frame_not_at_final_time, sliver_frame_on_whole_range).  Same monitor, same keys as the random stream.
+#   (dt, D, T)
 CORNER_PROBE = [(1.0, 1.000001, 1.000001), (0.5, 2.0000005, 2.0000005), (0.25, 1.00000025, 1.00000025),
-                (1.0, 1.5000005, 3.000001)]
+                (1.0, 1.5000005, 3.000001),          # a time scheduled exactly at t_end = t_final + 1e-6*dt is missed
+                (1.0, 1.2, 2.3), (0.5, 0.7, 1.6),    # the extra frame of a general range is not at the final time
+                (1.0, 1.0000002, 2.0), (0.25, 0.25000001, 1.0),  # whole range: a time in (t_end, t_end+1e-6*dt) adds a frame
+                (0.25, 0.2500001, 1.0)]              # ... and just beyond that sliver (4e-7 > 2.5e-7) it does not: holds
 
 
 def corner_probe(ctx):
     for dt, D, T in CORNER_PROBE:
+        whole = T / dt == round(T / dt)
         case = {"numbers": "F", "dt": dt, "t_start": 0.0, "t_end": T, "u0": 0.0, "eq": "one", "solver": "euler",
-                "backend": "numpy", "jit": False, "N": None, "delta": 0.0, "cells": 1,
+                "backend": "numpy", "jit": False, "N": round(T / dt) if whole else None, "delta": 0.0, "cells": 1,
                 "trackers": [{"kind": "storage", "sched": {"kind": "constant", "dt": D, "t_start": None}, "stops": []}]}
         real = ctrl.execute(case)
         ctx.count(case, nontrivial=True, leg="corner-probe")
-        ctx.hist("corner probe", "t_end = N*dt + 1e-6*dt, scheduled time at t_end")
+        ctx.hist("corner probe", f"dt={dt} D={D} T={T}")
         if real.get("error"):
             ctx.disagree("correspondence", case, "run completes", real["error"], "corner probe raised")
             continue
         ctx.monitor_evals += 1
-        for what, obs, exp in ctrl.monitor_trackers(case, real):
-            ctx.monitor_fail("corner-probe", case, obs, exp, what,
-                             key={"what": "every scheduled time <= t_end is served",
-                                  "corner": "t_end = t_final + 1e-6*dt"})
+        fails = ctrl.monitor_trackers(case, real)
+        for f in fails:
+            ctx.hist("corner probe outcome", f[3] if len(f) > 3 and f[3] else "unrecognised failure")
+        if not fails:
+            ctx.hist("corner probe outcome", "property holds")
+        report(ctx, "corner-probe", case, fails)
 
 
 # ------------------------------------------------------------------------------------------
@@ -158,7 +180,7 @@ def gen_exact_case(rng, hist, solver):
     numbers = rng.choice(["Q", "F"])
     dt, t0, t1, N, delta = ctrl.gen_base(rng, numbers, lambda *a: None, 30)
     trs = []
-    n = rng.choice([1, 1, 2, 3]) if solver == "scipy" else 1
+    n = rng.choice([1, 1, 2, 3])
     for _ in range(n):
         while True:
             sch = ctrl.gen_sched(rng, numbers, dt, t0, t1, lambda *a: None, adversarial=False)
@@ -167,7 +189,7 @@ def gen_exact_case(rng, hist, solver):
             if sch["kind"] == "fixed" or (sch["kind"] == "logarithmic" and sch["dt_initial"] >= 0.3 * dt):
                 if solver == "scipy":
                     break
-        if solver != "scipy":
+        if solver != "scipy" and n == 1:
             sch["t_start"] = None
         trs.append({"kind": rng.choice(["callback", "storage", "data"]), "sched": sch, "stops": []})
         hist("exact-stepper tracker", f"{trs[-1]['kind']}/{sch['kind']}")
@@ -206,11 +228,10 @@ def exact_leg(ctx, batch, pending):
             ctx.disagree("correspondence", case, "run completes", real["error"], "real run raised on a valid case")
             continue
         ctx.monitor_evals += 1
-        for what, obs, exp in ctrl.monitor_exact(case, real):
-            ctx.monitor_fail("exact-stepper", case, obs, exp, what, key={"what": what.split(" of ")[0][:60]})
+        report(ctx, "exact-stepper", case, ctrl.monitor_exact(case, real))
         if solver == "scipy":
             ctrl.check_run(ctx, case, real, batch, pending)
-    # the property text says "exactly at it for adaptive steppers": strict monitor on two-tracker probes
+    # deterministic two-tracker probes of the clause "exactly at it for adaptive steppers"
     for solver, adaptive, dt, intervals in ADAPTIVE_PROBE:
         case = {"numbers": "F", "dt": dt, "t_start": 0.0, "t_end": 3.0, "u0": 0.0, "eq": "time" if adaptive else "one",
                 "solver": solver, "backend": "numpy", "jit": False, "N": None, "delta": 0.0, "cells": 1,
@@ -224,18 +245,14 @@ def exact_leg(ctx, batch, pending):
             ctx.disagree("correspondence", case, "run completes", real["error"], "adaptive probe raised")
             continue
         ctx.monitor_evals += 1
-        for what, obs, exp in ctrl.monitor_exact(case, real, strict_exact=True):
-            ctx.monitor_fail("adaptive-probe", case, {"observed": obs, "times": real["times"]}, exp, what,
-                             key={"what": "adaptive stepper serves each scheduled time exactly at it",
-                                  "corner": "another tracker due up to dt/2 earlier"})
+        report(ctx, "adaptive-probe", case, ctrl.monitor_exact(case, real))
 
 
 def monitors(ctx, case, real):
     if isinstance(real, str) or real.get("error"):
         return
     ctx.monitor_evals += 1
-    for what, obs, exp in ctrl.monitor_trackers(case, real):
-        ctx.monitor_fail("trackers", case, obs, exp, what, key={"what": what.split(" of ")[0][:60]})
+    report(ctx, "trackers", case, ctrl.monitor_trackers(case, real))
 
 
 def run(ctx):
@@ -281,59 +298,84 @@ def run(ctx):
     ctx.disagreements.sort(key=lambda d: len(json.dumps(d["case"], default=str)))
 
 
+def judge(case, real):
+    """the C08 monitor that applies to the case: list of monitor-failure dicts"""
+    mon = ctrl.monitor_exact if case.get("stepper") == "exact" else ctrl.monitor_trackers
+    return [{"leg": "exact-stepper" if case.get("stepper") == "exact" else "trackers", "case": case, "observed": obs,
+             "expected": exp, "what": what, "key": ctrl.failure_key(what, rest[0] if rest else None)}
+            for what, obs, exp, *rest in mon(case, real)]
+
+
 def search(ctx, broken):
-    """failing-input search after a broken tie: the monitor on the disagreeing cases, then on a larger
-    fresh sample of stop-free / stopped pairs (numpy backend in-process)"""
-    found = []
+    """failing-input search after a broken tie: the monitor on the disagreeing cases (in the execution mode they
+    were generated for), then on a larger fresh sample of stop-free / stopped pairs (numpy in-process, and the
+    numba modes in which a disagreement occurred).  Failures that are known corners are not what is searched for."""
+    from harness.common import findings
+    known = findings.load()
 
-    def probe(case):
-        real = ctrl.execute(case)
-        if real.get("error"):
-            return None
-        mon = ctrl.monitor_exact if case.get("stepper") == "exact" else ctrl.monitor_trackers
-        for what, obs, exp in mon(case, real):
-            found.append({"leg": "trackers", "case": case, "observed": obs, "expected": exp, "what": what,
-                          "key": {"what": what.split(" of ")[0][:60]}})
-            return real
-        return real
+    def unlisted(case, real):
+        if isinstance(real, str) or real.get("error"):
+            return []
+        return [f for f in judge(case, real) if findings.match(PID, f["key"], known) is None]
 
+    cases, modes = [], set()
     for d in broken:
         c = d.get("case") if isinstance(d, dict) else None
         if not c or "dt" not in c:
             continue
-        probe(dict(copy.deepcopy(c), backend="numpy"))
+        modes.add(ctrl.exec_mode(c))
+        if len(cases) < 40:
+            cases.append(copy.deepcopy(c))
+    for c, r in zip(cases, ctrl.execute_as_recorded(cases, procs=8)):
+        found = unlisted(c, r)
         if found:
-            return found
+            return found[:1]
     rng = ctx.sub_rng("search")
     nohist = lambda *a, **k: None
     for _ in range(5000):
         case = gen_case(rng, nohist, "numpy", 120)
-        real = probe(case)
+        real = ctrl.execute(case)
+        found = unlisted(case, real)
+        if not found and not real.get("error"):
+            case = place_stops(rng, nohist, case, real)
+            found = unlisted(case, ctrl.execute(case))
         if found:
-            return found
-        if real is not None:
-            probe(place_stops(rng, nohist, case, real))
+            return found[:1]
+    for mode in sorted(modes - {"numpy"}):
+        first = [gen_case(rng, nohist, mode, 60) for _ in range(150 if mode == "numba-S" else 30)]
+        res1 = ctrl.execute_as_recorded(first, procs=8)
+        second = [c if r.get("error") else place_stops(rng, nohist, c, r) for c, r in zip(first, res1)]
+        res2 = ctrl.execute_as_recorded(second, procs=8)
+        for c, r in list(zip(first, res1)) + list(zip(second, res2)):
+            found = unlisted(c, r)
             if found:
-                return found
-    return found
+                return found[:1]
+    return []
 
 
 def replay(ctx, rep):
-    case = rep["case"]
-    real = ctrl.execute(case)
+    """re-run the recorded case on the real code in the recorded execution mode (numpy / numba source / numba
+    JIT) with the monitor of its leg and judge the recorded symptom"""
+    case = rep.get("case")
+    if not isinstance(case, dict) or "dt" not in case:
+        print("this file records no case of C08 (nothing to re-run): cannot be replayed")
+        return False
+    print("execution mode:", ctrl.exec_mode(case), "| leg:", rep.get("leg"))
+    real = ctrl.execute_as_recorded([case])[0]
     if real.get("error"):
         print("run raised:", real["error"])
         return False
     print("trace:", real["trace"][:60])
-    print("steps", real["steps"], "t_final", real["t_final"], "state", real["state"], "stop_reason",
+    print("steps", real["steps"], "t_final", real["t_final"], "state", repr(real["state"]), "stop_reason",
           real["stop_reason"], "finalized", real["finalized"])
-    if case.get("stepper") == "exact":
-        bad = ctrl.monitor_exact(case, real, strict_exact=rep.get("leg") == "adaptive-probe")
-        print("recorded times:", real["times"])
-    else:
-        bad = ctrl.monitor_trackers(case, real)
+    print("recorded times:", real["times"])
+    bad = judge(case, real)
     for b in bad:
-        print("monitor:", b)
+        print("monitor:", b["what"], "| observed", b["observed"], "| expected", b["expected"], "| key", b["key"])
+    what = rep.get("what")
+    same = [b for b in bad if what is None or b["what"] == what]
     if not bad:
         print("monitor: holds")
-    return not bad
+    elif not same:
+        print(f"the recorded symptom `{what}` is gone; the failures above are different ones")
+    return not same
